@@ -85,6 +85,16 @@ class SymSeq(V):
 
 
 @dataclass(frozen=True, eq=False)
+class SymArr(V):
+    """Sequence with a concrete capacity and a symbolic length <= capacity (elements beyond the length are junk)."""
+    elems: Tuple
+    length: object  # z3 Int
+
+    def __repr__(self):
+        return f"SymArr(cap={len(self.elems)}, len={self.length})"
+
+
+@dataclass(frozen=True, eq=False)
 class Bytes(V):
     """Vec<u8> / [u8] contents as a z3 sequence of bytes."""
     s: object
